@@ -2778,6 +2778,12 @@ func (s *Server) serveConnCounted(c net.Conn, countConcurrency bool) error {
 		releaseReader(s, br)
 	}
 	if bw != nil {
+		if err == nil && bw.Buffered() > 0 {
+			// The connection ends without an error (shutdown, or the client
+			// stopped sending) while responses to pipelined requests are
+			// still buffered: deliver them before the writer is dropped.
+			_ = bw.Flush()
+		}
 		releaseWriter(s, bw)
 	}
 	if hijackHandler == nil {
